@@ -137,6 +137,9 @@ def main(run):
         run.proof_ok = False
         run.proof_log += "\nthread.py no longer has the line structure the model (coq/model/Worker.v) was written against: %s" % run.drift
     run.run_findings()
+    # pl15: thread.py interpreted (PyLite) vs CPython with the event / thread / callback stubs
+    # (tools/checks/pyl_cases.py g_worker); the theorems proofs/Src_worker_*.v are about that interpretation
+    run.pylite(["worker"])
     rng = common.Rng(run.seed)
     old = sys.getswitchinterval()
     sys.setswitchinterval(1e-5)
